@@ -238,6 +238,30 @@ pub fn wstall(args: &[&str]) -> Option<Vec<String>> {
     let hello = ClientId::Domain("c.example".into());
     let t0 = Instant::now();
     let out = match client {
+        // a connection of its own, set up with a long timeout; T is configured afterwards with `set_timeout`
+        "c" => {
+            let (tx, rx) = std::sync::mpsc::channel();
+            std::thread::spawn(move || {
+                let conn = lettre::transport::smtp::client::SmtpConnection::connect((crate::util::lo(), port), Some(Duration::from_secs(6)), &hello, None, None);
+                let mut conn = match conn {
+                    Ok(c) => c,
+                    Err(_) => {
+                        let _ = tx.send("setup@-".to_string());
+                        return;
+                    }
+                };
+                if conn.set_timeout(Some(timeout)).is_err() {
+                    let _ = tx.send("setup@-".to_string());
+                    return;
+                }
+                let r = conn.send(&envelope, &msg);
+                let _ = tx.send(format!("{}@{}", describe(&r), is_timeout(&r)));
+            });
+            match rx.recv_timeout(cap) {
+                Ok(s) => s,
+                Err(_) => "HANG@-".into(),
+            }
+        }
         "s" => {
             let (tx, rx) = std::sync::mpsc::channel();
             std::thread::spawn(move || {
